@@ -102,6 +102,7 @@ impl<const N: usize> Exec<N> {
             cfg.read_chunk,
             cfg.eintr_every,
         )));
+        disk.borrow_mut().enable_mirror();
         sodg::verif::fs::install(Some(disk.clone()));
         sodg::verif::collections::set_hash_seed(cfg.hash_seed ^ cfg.hash_xor);
         log::set_max_level(match cfg.log_level {
